@@ -9,7 +9,8 @@ from mc.core import Node, problem
 
 LEVEL = "exploration"
 ASSUMPTIONS = [
-    "shapes up to 4 (thorough 6) nodes; one edit at a time after the copy (the edited side is rebuilt for every edit)",
+    "shapes up to 5 (thorough 7) nodes x 9 field populations; one edit at a time after the copy (the edited side is rebuilt for every edit); "
+    "larger trees (chains, stars, 4 226 nodes) are copied without the per-edit loop",
     "the parent link of the copy's root itself is not constrained by the statement",
 ]
 
